@@ -168,7 +168,20 @@ def run_case(model, rng, version, plan, want, device_id=123456):
         net.run(ac.refresh())
         obs["online1"] = ac.online
         set_attributes(ac, AC, want)
+        from msmart.device.AC import command as C
+        obs["counter_before_apply"] = C.Command._message_id
+        n_writes = len([t for t in net.log if t[0] == "write"])
         net.run(ac.apply())
+        # the bytes written for the control command: the V2 packet itself, or the V2 packet inside the encrypted request
+        wr = [t for t in net.log if t[0] == "write"][n_writes:]
+        if wr:
+            raw = bytes(wr[0][3])
+            if version == 3:
+                conn = net.conns[wr[0][1]]
+                st3, o3 = model.call(refpeer.F_V3PARSE, [conn.state.get("session_key") or [], list(raw)])
+                raw = bytes(o3[1]) if st3 == 0 else b""
+            obs["control_packet_v2"] = raw
+            obs["beep"] = int(bool(ac.beep))
         obs["device_after_apply"] = list(app.ac.state)
         obs["client_after_apply"] = client_view(ac)          # informational: may still show an unsolicited older report
         net.run(ac.refresh())
